@@ -201,6 +201,7 @@ class Evaluator:
         # opaque dependency calls that return a scalar although their arguments are arrays
         self.scalar_deps = {"dep:uts.thresholding.isodata"}
         self.bool_registry: Dict[str, G] = {}        # boolean masks that were turned into opaque index atoms
+        self.in_registry: Dict[Any, Any] = {}        # key of an `x in c` atom -> (x value, c value)
         self.comp_registry: Dict[str, Any] = {}      # all(...)/any(...) over a generator: (kind, iter value, element symbol, element guard)
 
     def never_none(self, qual: str) -> bool:
@@ -324,6 +325,8 @@ class Evaluator:
 
     def arith(self, op: str, a, b):
         def f(x, y):
+            if op == "+" and isinstance(x, Vec) and isinstance(y, Vec) and x.kind == "list" and y.kind == "list":
+                return Vec(list(x.items) + list(y.items), "list")          # list concatenation
             if isinstance(x, Vec) or isinstance(y, Vec):
                 xs = x.items if isinstance(x, Vec) else None
                 ys = y.items if isinstance(y, Vec) else None
@@ -395,6 +398,20 @@ class Evaluator:
         env = dict(env)
         live = fr.block(loop.body, env, TRUE)
         fr.live_end = live
+        # the state carried to the next iteration: the fall-through state merged with the state at every `continue`
+        if fr.continue_envs:
+            parts = ([(live, env)] if live.kind != "false" else []) + list(fr.continue_envs)
+            names = set()
+            for _g, e_ in parts:
+                names |= set(e_)
+            merged = {}
+            for nme in names:
+                vals = [(g_, e_.get(nme, Obj("undefined"))) for g_, e_ in parts]
+                if all(veq(vals[0][1], v_) for _g, v_ in vals[1:]):
+                    merged[nme] = vals[0][1]
+                else:
+                    merged[nme] = mk_pw(vals)
+            env = merged
         return FrameResult(fr, env)
 
 
@@ -423,6 +440,7 @@ class Frame:
         self.events: List[Event] = []
         self.breaks: List[G] = []
         self.continues: List[G] = []
+        self.continue_envs: List[Tuple[G, Dict[str, Any]]] = []
         self.loop_stack: List[ast.AST] = []
         self.havoc_depth = 0
         self.cur_guard: G = TRUE
@@ -493,6 +511,8 @@ class Frame:
             return FALSE
         if isinstance(st, ast.Continue):
             self.continues.append(guard)
+            if self.havoc_depth == 0:
+                self.continue_envs.append((guard, dict(env)))
             return FALSE
         if isinstance(st, (ast.Pass, ast.Import, ast.ImportFrom, ast.FunctionDef, ast.ClassDef, ast.Assert)):
             return guard
@@ -795,6 +815,7 @@ class Frame:
                     g = FALSE
                 else:
                     g = g_atom(("in", ka, kb))
+                    self.ev.in_registry[g.key] = (a, b)        # membership facts: (element value, container value)
                 return g if isinstance(op, ast.In) else g_not(g)
             else:
                 return g_atom(("cmp", opname, ka, kb))
@@ -965,6 +986,10 @@ class Frame:
         if not arr.is_array():
             return anf.opaque("item", arr, idx, array=False)
         ats = arr.atoms()
+        if len(ats) == 1 and ats[0].kind == "fn" and ats[0].name.startswith(("call:", "slot:", "dep:")) and arr.equals(Rat.from_atom(ats[0])) \
+                and idx.is_const() is not None and idx.is_const() >= 0:
+            # component k of an opaque call result: the same value whether it is reached by r[k] or by unpacking
+            return anf.opaque("item", arr, idx, array=False)
         if len(ats) == 1 and ats[0].kind == "fn" and ats[0].name == "slice" and arr.equals(Rat.from_atom(ats[0])):
             base, lo, hi = ats[0].args
             c = idx.is_const()
@@ -994,7 +1019,10 @@ class Frame:
             if isinstance(v, Obj) and v.tag == "none":
                 return sym("None")
             return self.ev.to_rat(v)
-        return anf.opaque("slice", arr, k(lo), k(hi), array=True)
+        lo_r = k(lo)
+        if lo_r.symbols() == {"None"}:
+            lo_r = Rat.const(0)          # x[:b] is x[0:b]
+        return anf.opaque("slice", arr, lo_r, k(hi), array=True)
 
     # -- calls ---------------------------------------------------------------
     def call(self, e: ast.Call, env, guard: G, stmt):
